@@ -82,6 +82,8 @@ def setup():
     _T["state"] = typhon_state()
 
 
+FRACTIONS = [0.0, 0.5, 0.25, 0.999, 0.001]      # exact in milliseconds
+
 DIMNAMES = [("scnline", "scnpos"), ("scnline", "scnpos"), ("scanline", "pixel"),
             ("y", "x"), ("along_track", "across_track")]
 
@@ -89,6 +91,7 @@ DIMNAMES = [("scnline", "scnpos"), ("scnline", "scnpos"), ("scanline", "pixel"),
 def gen_dataset(tape, did, force_big=False):
     d = {"id": did}
     d["layout"] = tape.pick(["linear", "linear", "grid"], "layout")
+    d["subsec"] = tape.flag("subsec", 1, 3)      # time stamps with fractions of a second
     big = force_big or tape.flag("big", 1, 300)
     d["big"] = big
     if big and tape.flag("biggrid", 1, 3):
@@ -116,6 +119,8 @@ def gen_dataset(tape, did, force_big=False):
             dla = [0.0, 0.001, 0.01, 0.05, 0.3][tape.choice(5, "dla")] * (tape.choice(3, "s") - 1)
             dlo = [0.0, 0.001, 0.02, 0.3][tape.choice(4, "dlo")] * (tape.choice(3, "s2") - 1)
             t = tape.choice(7200, "t")
+            if d["subsec"]:
+                t += FRACTIONS[tape.choice(len(FRACTIONS), "frac")]
             nan = tape.flag("nan", 1, 15)
             pts.append([c, dla, dlo, t, nan])
         if tape.flag("dup_time", 1, 4) and len(pts) > 1:
@@ -126,7 +131,9 @@ def gen_dataset(tape, did, force_big=False):
         pos = tape.count(1, 5, "pos", (3, 4))
         d["lines"], d["pos"] = lines, pos
         d["c"] = tape.choice(len(CENTRES), "c")
-        d["times"] = [tape.choice(7200, "t") for _ in range(lines)]
+        d["times"] = [tape.choice(7200, "t") +
+                      (FRACTIONS[tape.choice(len(FRACTIONS), "frac")] if d["subsec"] else 0)
+                      for _ in range(lines)]
         d["step"] = [0.002, 0.02, 0.2][tape.choice(3, "step")]
         d["nan"] = [(tape.choice(lines, "nl"), tape.choice(pos, "np"))
                     for _ in range(tape.choice(2, "nnan"))]
@@ -143,9 +150,12 @@ def materialise(d, perturb=0.0):
         n = d["n"]
         lat = 10.0 + rs.uniform(-0.5, 0.5, n)
         lon = 20.0 + rs.uniform(-0.5, 0.5, n)
-        secs = rs.randint(0, 7200, n)
+        secs = rs.randint(0, 7200, n).astype(float)
+        if d.get("subsec"):
+            secs = secs + rs.choice(FRACTIONS, n)
         ids = np.arange(n) + 100000 * (d["id"] + 1)
-        t = np.array([np.datetime64(BASE) + np.timedelta64(int(s), "s") for s in secs])
+        t = np.array([np.datetime64(BASE, "ms") + np.timedelta64(int(round(s * 1000)), "ms")
+                      for s in secs])
         ds = xr.Dataset({"time": ("obs", t.astype("M8[ns]")), "lat": ("obs", lat),
                          "lon": ("obs", lon), "id": ("obs", ids)},
                         coords={"obs": np.arange(n) * 2 + 5})
